@@ -90,6 +90,12 @@ def ncf2lateral_boundary(ncffile, outpath):
     time_hdr['etime'] = time + 1.
     time_hdr['iedate'] += (time_hdr['etime'] // 24).astype('i')
     time_hdr['etime'] -= (time_hdr['etime'] // 24) * 24
+    # carry the day of year into the next two-digit year (YYJJJ)
+    yy_e, jjj_e = time_hdr['iedate'] // 1000, time_hdr['iedate'] % 1000
+    ndays_e = np.where(yy_e % 4 == 0, 366, 365)
+    time_hdr['iedate'] = np.where(jjj_e > ndays_e,
+                                  (yy_e + 1) % 100 * 1000 + (jjj_e - ndays_e),
+                                  time_hdr['iedate'])
     emiss_hdr['ibdate'] = time_hdr['ibdate'][0]
     emiss_hdr['btime'] = time_hdr['btime'][0]
     emiss_hdr['iedate'] = time_hdr['iedate'][-1]
